@@ -47,6 +47,12 @@ func genC10(tier string, seed int64) []Case {
 			cases = append(cases, Case{ID: id, Class: d.Phase, Desc: d, Run: func(c *Ctx) { runC10Window(c, d) }})
 		}
 	}
+	// callers arriving at the same instant on an idle instance: exactly one is admitted per round
+	for _, n := range []int{8, 4} {
+		d := c10Desc{Phase: "burst", Extra: n, Exts: 0}
+		id := fmt.Sprintf("C10/%s/x%d/e%d/o%d/h%d", d.Phase, d.Extra, d.Exts, d.Offset, d.History)
+		cases = append(cases, Case{ID: id, Class: d.Phase, Desc: d, Timeout: 200 * time.Second, Run: func(c *Ctx) { runC10Burst(c, d, map[bool]int{true: 1500, false: 250}[tier == "thorough"]) }})
+	}
 	// with an extension present in every phase
 	for _, ph := range c10Phases {
 		add(c10Desc{Phase: ph, Extra: 1, Exts: 1, History: 1})
@@ -448,6 +454,89 @@ func runC10Window(c *Ctx, d c10Desc) {
 	c.SetHooks(hk.Arrived())
 	c.SetTrace(d.Phase+fmt.Sprint(d.Exts)+out, true)
 	c.SetInterleaving(d.Phase + "/" + out)
+	if c.WantSample || c.Violated() {
+		c.SetSample(sampleLog(w, 160))
+	}
+}
+
+// runC10Burst releases d.Extra callers from a barrier at the same instant, round after round, on an idle instance
+// with a healthy runtime. Per round: every caller is either served with its own answer or refused, at least one
+// is served, and the runtime received exactly as many events as callers were served - in fact exactly one can be
+// admitted at a time, the others (arriving while it is in flight) are refused.
+func runC10Burst(c *Ctx, d c10Desc, rounds int) {
+	w, err := NewWorld(vh.Config{TimeoutMs: 5000})
+	if err != nil {
+		c.Inconclusive("harness: " + err.Error())
+		return
+	}
+	defer w.Close()
+	var mu sync.Mutex
+	delivered := 0
+	w.RtPlan = func(gen int, p *vh.Proc) vh.ExecPlan {
+		return vh.ExecPlan{Behave: w.RtLoop(RtOpts{Handle: func(p *vh.Proc, pt *vh.Party, n int, ev *vh.Resp) *vh.Exit {
+			mu.Lock()
+			delivered++
+			mu.Unlock()
+			time.Sleep(300 * time.Microsecond) // in flight long enough for every other caller of the round to arrive
+			pt.Respond(ev.ReqID(), append([]byte("R:"), ev.Body...), nil)
+			return nil
+		}})}
+	}
+	w.E.Init()
+	for dl := time.Now().Add(5 * time.Second); time.Now().Before(dl) && w.E.RuntimeState() != "Ready"; {
+		time.Sleep(200 * time.Microsecond)
+	}
+	multi := 0
+	for r := 0; r < rounds && !c.Violated(); r++ {
+		mu.Lock()
+		before := delivered
+		mu.Unlock()
+		start := make(chan struct{})
+		invs := make([]*vh.Invocation, d.Extra)
+		var wg sync.WaitGroup
+		for i := range invs {
+			wg.Add(1)
+			go func(i int) {
+				defer wg.Done()
+				<-start
+				invs[i] = w.E.InvokeAsync([]byte(fmt.Sprintf("burst-%d-%d", r, i)), vh.InvokeOpts{})
+			}(i)
+		}
+		close(start)
+		wg.Wait()
+		served := 0
+		for i, x := range invs {
+			if !x.Wait(8 * time.Second) {
+				c.Check(false, "burst_answered", "C10/burst/hang", fmt.Sprintf("round %d: caller %d of a simultaneous burst was never answered", r, i), nil)
+				c.SetSample(sampleLog(w, 120))
+				return
+			}
+			ok := x.Err == nil && bytes.Equal(x.W.Body(), []byte(fmt.Sprintf("R:burst-%d-%d", r, i)))
+			refused := vh.ErrName(x.Err) == "alreadyreserved" && x.W.NWrites() == 0
+			if ok {
+				served++
+			}
+			c.Check(ok || refused, "burst_served_or_refused", "C10/burst/"+vh.ErrName(x.Err), fmt.Sprintf("round %d: caller %d was neither served with its own answer nor refused: outcome %q body %s", r, i, vh.ErrName(x.Err), trunc(x.W.Body())), nil)
+		}
+		// let the runtime get back to next
+		for dl := time.Now().Add(3 * time.Second); time.Now().Before(dl) && w.E.RuntimeState() != "Ready"; {
+			time.Sleep(100 * time.Microsecond)
+		}
+		mu.Lock()
+		got := delivered - before
+		mu.Unlock()
+		c.Check(served >= 1, "burst_one_admitted", "C10/burst/nobody-served", fmt.Sprintf("round %d: none of %d simultaneous callers was served", r, d.Extra), nil)
+		c.Check(got == served, "burst_dispatch_matches", fmt.Sprintf("C10/burst/dispatched-%d-served-%d", got, served), fmt.Sprintf("round %d: the runtime received %d events, %d callers were served", r, got, served), nil)
+		if served > 1 {
+			multi++
+		}
+	}
+	// several callers of one round may be served one after the other (the first finished before the next arrived);
+	// what must never happen is two at once - that shows as a caller with an empty / foreign answer or a dispatch mismatch
+	c.Counter("burst_rounds", rounds)
+	c.Counter("burst_rounds_with_several_served_in_turn", multi)
+	c.SetTrace(fmt.Sprintf("burst%d", d.Extra), true)
+	c.SetInterleaving(fmt.Sprintf("burst/x%d", d.Extra))
 	if c.WantSample || c.Violated() {
 		c.SetSample(sampleLog(w, 160))
 	}
